@@ -147,6 +147,30 @@ func invalidClasses() []invClass {
 	add("ptr:default-field-scalar", reflect.TypeOf((*int32)(nil)), "1,default,i32")
 	add("ptr:required-field-string", reflect.TypeOf((*string)(nil)), "1,required,string")
 	add("ptr:idonly-field-scalar", reflect.TypeOf((*int64)(nil)), "1")
+	// ... systematically: every base type x every non-optional requiredness, annotated or not
+	for _, sc := range []struct {
+		name string
+		rt   reflect.Type
+		ann  string
+	}{{"bool", reflect.TypeOf(false), "bool"}, {"i8", reflect.TypeOf(int8(0)), "i8"}, {"byte", reflect.TypeOf(int8(0)), "byte"}, {"i16", reflect.TypeOf(int16(0)), "i16"},
+		{"i32", tI32, "i32"}, {"i64", reflect.TypeOf(int64(0)), "i64"}, {"double", reflect.TypeOf(float64(0)), "double"}, {"string", tStr, "string"},
+		{"binary", reflect.TypeOf([]byte(nil)), "binary"}, {"enum", reflect.TypeOf(core.E1(0)), "E1"}} {
+		for _, req := range []string{"default", "required", ""} {
+			for _, withAnn := range []bool{true, false} {
+				tag := "1"
+				if req != "" {
+					tag += "," + req
+				}
+				if withAnn {
+					if req == "" {
+						continue
+					}
+					tag += "," + sc.ann
+				}
+				add(fmt.Sprintf("ptr:nonoptional:%s:%s:ann=%v", sc.name, req, withAnn), reflect.PointerTo(sc.rt), tag)
+			}
+		}
+	}
 	// pointers to pointers or to containers
 	add("ptrptr:struct-field", reflect.TypeOf((**plainS)(nil)), "1,optional,plainS")
 	add("ptrptr:struct-default", reflect.TypeOf((**plainS)(nil)), "1,default,plainS")
